@@ -5,10 +5,18 @@ import ShVerif.Proofs.L3Glob
 -/
 namespace ShVerif.L3
 
-/-- The parse of a pattern that consists of literal characters only. -/
-def litSeq : Str → Glob
-  | [] => .eps
-  | c :: r => .seq (.lit c) (litSeq r)
+/-- The parse of a pattern that consists of literal characters only (`prev`: the character before). -/
+def litSeq (m : Mode) : Rune → Str → Glob
+  | _, [] => .eps
+  | prev, c :: r => .seq (litTok m prev c) (litSeq m c r)
+
+theorem litTok_ne_dot (m : Mode) (prev : Rune) {c : Rune} (h : c ≠ cDot) : litTok m prev c = .lit c := by
+  unfold litTok
+  have : (c == cDot) = false := by simpa using h
+  simp [this]
+
+theorem litTok_nofn {m : Mode} (h : m.filenames = false) (prev c : Rune) : litTok m prev c = .lit c := by
+  simp [litTok, h]
 
 /-- "The same text", up to case when the mode folds case. -/
 def sameText (m : Mode) : Str → Str → Prop
@@ -35,24 +43,138 @@ theorem sameText_length {m : Mode} : ∀ {t s : Str}, sameText m t s → t.lengt
     simp only [sameText] at h
     simp [sameText_length h.2]
 
-theorem GDen_litSeq (m : Mode) (s : Str) : ∀ (b : Bool) (t : Str),
-    GDen m (litSeq s) b t ↔ sameText m t s := by
+/-- With or without case folding, only the character itself stands for a non-letter below 'A'. -/
+theorem variants_small (nc : Bool) (x y : Nat) (hy : y < 65) (h : (variants nc x).contains y = true) :
+    x = y := by
+  unfold variants at h
+  cases nc with
+  | false => simpa [eq_comm] using h
+  | true =>
+    simp only [if_true] at h
+    unfold orbit at h
+    split at h
+    · simp at h; rcases h with h | h | h <;> (subst h; simp at hy)
+    · split at h
+      · simp at h; rcases h with h | h | h <;> (subst h; simp at hy)
+      · split at h
+        · rename_i hu
+          simp [isUpper] at hu
+          simp at h
+          rcases h with h | h
+          · subst h; rfl
+          · subst h
+            have : 65 ≤ x + 32 := Nat.le_trans hu.1 (Nat.le_add_right _ _)
+            exact absurd hy (Nat.not_lt.mpr this)
+        · split at h
+          · rename_i hl
+            simp [isLower] at hl
+            simp at h
+            rcases h with h | h
+            · subst h
+              have : 65 ≤ x - 32 := Nat.le_sub_of_add_le hl.1
+              exact absurd hy (Nat.not_lt.mpr this)
+            · subst h; rfl
+          · simpa [eq_comm] using h
+
+theorem chEq_small {nc : Bool} {c x : Nat} (hc : c < 65) (h : chEq nc c x = true) : x = c :=
+  variants_small nc x c hc h
+
+theorem chEq_refl (nc : Bool) (c : Rune) : chEq nc c c = true := by
+  unfold chEq variants
+  cases nc with
+  | false => simp
+  | true =>
+    simp only [if_true]
+    unfold orbit
+    split
+    · rename_i h; simp at h; rcases h with (h | h) | h <;> simp [h]
+    · split
+      · rename_i h; simp at h; rcases h with (h | h) | h <;> simp [h]
+      · split
+        · simp
+        · split <;> simp
+
+theorem GDen_litTok (m : Mode) (prev c : Rune) (b : Bool) (hb : b = true → prev = 0 ∨ prev = cSlash)
+    (s1 : Str) : GDen m (litTok m prev c) b s1 ↔ ∃ x, s1 = [x] ∧ chEq m.nocase c x = true := by
+  unfold litTok
+  split
+  · rename_i h
+    simp only [Bool.and_eq_true, Bool.not_eq_true', beq_iff_eq, Bool.or_eq_false_iff,
+      beq_eq_false_iff_ne] at h
+    obtain ⟨⟨⟨hfn, hdg⟩, rfl⟩, hp1, hp2⟩ := h
+    have hbf : b = false := by
+      cases b with
+      | false => rfl
+      | true => rcases hb rfl with h | h <;> contradiction
+    subst hbf
+    simp only [GDen]
+    constructor
+    · rintro ⟨x, rfl, _, hm⟩
+      refine ⟨x, rfl, ?_⟩
+      simp only [bracketMem, List.any_cons, List.any_nil, Bool.or_false, BItem.memFold, BItem.mem,
+        bne_iff_ne, ne_eq, Bool.false_eq, Bool.not_eq_true'] at hm
+      have : (variants m.nocase x).any (fun y => y == cDot) = true := by
+        cases h : (variants m.nocase x).any (fun y => y == cDot) with
+        | true => rfl
+        | false => simp [h] at hm
+      have hx : x = cDot := by
+        apply variants_small m.nocase x cDot (by decide)
+        obtain ⟨y, hy, hyd⟩ := List.any_eq_true.mp this
+        have := beq_iff_eq.mp hyd
+        subst this
+        exact List.contains_iff_mem.mpr hy
+      subst hx
+      exact chEq_refl _ _
+    · rintro ⟨x, rfl, hc⟩
+      have hx : x = cDot := chEq_small (by decide) hc
+      subst hx
+      refine ⟨cDot, rfl, ?_, ?_⟩
+      · have e1 : (cDot == cSlash) = false := by decide
+        simp [wildOk, e1]
+      · simp only [bracketMem, List.any_cons, List.any_nil, Bool.or_false, BItem.memFold, BItem.mem]
+        have : (variants m.nocase cDot).any (fun y => y == cDot) = true := by
+          have h0 := chEq_refl m.nocase cDot
+          unfold chEq at h0
+          exact List.any_eq_true.mpr ⟨cDot, List.contains_iff_mem.mp h0, by simp⟩
+        simp [this]
+  · simp only [GDen]
+
+theorem GDen_litSeq (m : Mode) (s : Str) : ∀ (prev : Rune) (b : Bool) (t : Str),
+    (b = true → prev = 0 ∨ prev = cSlash) →
+    (GDen m (litSeq m prev s) b t ↔ sameText m t s) := by
   induction s with
   | nil =>
-    intro b t
+    intro prev b t _
     cases t <;> simp [litSeq, GDen, sameText]
   | cons c r ih =>
-    intro b t
+    intro prev b t hb
     simp only [litSeq, GDen]
+    have hnext : ∀ x, chEq m.nocase c x = true → (startAfter m x = true → c = 0 ∨ c = cSlash) := by
+      intro x hx hs
+      right
+      simp only [startAfter, Bool.and_eq_true, beq_iff_eq] at hs
+      obtain ⟨_, rfl⟩ := hs
+      unfold chEq at hx
+      have := variants_small m.nocase cSlash c
+      -- c ∈ variants of '/' : only '/' itself
+      have h2 : (variants m.nocase cSlash).contains c = true := hx
+      have h3 : variants m.nocase cSlash = [cSlash] := by
+        cases m.nocase <;> decide
+      rw [h3] at h2
+      simpa using h2
     constructor
-    · rintro ⟨s1, s2, rfl, ⟨x, rfl, hx⟩, h2⟩
-      exact ⟨hx, (ih _ _).mp h2⟩
+    · rintro ⟨s1, s2, rfl, h1, h2⟩
+      obtain ⟨x, rfl, hx⟩ := (GDen_litTok m prev c b hb s1).mp h1
+      rw [ctxAfter_singleton] at h2
+      exact ⟨hx, (ih c _ _ (hnext x hx)).mp h2⟩
     · intro h
       cases t with
       | nil => simp [sameText] at h
       | cons x t' =>
         obtain ⟨hx, hr⟩ := h
-        exact ⟨[x], t', rfl, ⟨x, rfl, hx⟩, (ih _ _).mpr hr⟩
+        refine ⟨[x], t', rfl, (GDen_litTok m prev c b hb [x]).mpr ⟨x, rfl, hx⟩, ?_⟩
+        rw [ctxAfter_singleton]
+        exact (ih c _ _ (hnext x hx)).mpr hr
 
 /-! ### unfolding lemmas -/
 
@@ -74,7 +196,7 @@ theorem parseSeq_cons (m : Mode) (fuel : Nat) (prev c : Rune) (rest : Str) :
     if c = cBS then
       match rest with
       | [] => .error .trailingBackslash
-      | d :: rest' => andThenG (.lit d) (parseSeq m fuel d rest')
+      | d :: rest' => andThenG (litTok m prev d) (parseSeq m fuel d rest')
     else if c = cQuest ∧ !(m.ext && rest.head? == some cLP) then andThenG .any (parseSeq m fuel c rest)
     else if c = cStar ∧ !(m.ext && rest.head? == some cLP) then
       if m.filenames && !m.noglobstar && (prev == 0 || prev == cSlash) && rest.head? == some cStar
@@ -96,7 +218,7 @@ theorem parseSeq_cons (m : Mode) (fuel : Nat) (prev c : Rune) (rest : Str) :
         match alts.mapM (parseSeq m fuel cLP) with
         | .error e => .error e
         | .ok gs => andThenG (.ext c (altGlob gs)) (parseSeq m fuel cRP rest')
-    else andThenG (.lit c) (parseSeq m fuel c rest) := by
+    else andThenG (litTok m prev c) (parseSeq m fuel c rest) := by
   conv => lhs; rw [parseSeq.eq_def]
   rfl
 
@@ -147,7 +269,7 @@ theorem head_quoteMeta_lp (r : Str) : ((quoteMeta r).head? == some cLP) = (r.hea
 
 theorem parseSeq_quoteMeta (m : Mode) (s : Str) :
     ∀ (fuel : Nat) (prev : Rune), s.length < fuel → (m.ext = false ∨ hasExtOpener s = false) →
-      parseSeq m fuel prev (quoteMeta s) = .ok (litSeq s) := by
+      parseSeq m fuel prev (quoteMeta s) = .ok (litSeq m prev s) := by
   induction s with
   | nil =>
     intro fuel prev hf _
@@ -489,7 +611,7 @@ theorem hasExtGroup_bs_cons (d : Rune) (rest : Str) : hasExtGroup (cBS :: d :: r
     is malformed. -/
 theorem parseSeq_noMeta (m : Mode) : ∀ (fuel : Nat) (ob : Bool) (prev : Rune) (p : Str),
     p.length < fuel → hasMetaAux ob p = false → (m.ext = false ∨ hasExtGroup p = false) →
-    parseSeq m fuel prev p = .ok (litSeq (unescape p)) ∨ ∃ e, parseSeq m fuel prev p = .error e := by
+    parseSeq m fuel prev p = .ok (litSeq m prev (unescape p)) ∨ ∃ e, parseSeq m fuel prev p = .error e := by
   intro fuel
   induction fuel with
   | zero => intro ob prev p hf; simp at hf
@@ -541,8 +663,8 @@ theorem parseSeq_noMeta (m : Mode) : ∀ (fuel : Nat) (ob : Bool) (prev : Rune) 
             simp only [Bool.or_eq_false_iff] at h
             exact h.2
         have fin : ∀ ob', hasMetaAux ob' rest = false →
-            (andThenG (.lit c) (parseSeq m f c rest) = .ok (litSeq (unescape (c :: rest))) ∨
-              ∃ e, andThenG (.lit c) (parseSeq m f c rest) = .error e) := by
+            (andThenG (litTok m prev c) (parseSeq m f c rest) = .ok (litSeq m prev (unescape (c :: rest))) ∨
+              ∃ e, andThenG (litTok m prev c) (parseSeq m f c rest) = .error e) := by
           intro ob' hm'
           rcases ih ob' c rest hf' hm' hext' with h | ⟨e, h⟩
           · left; rw [h, unescape_cons_ne rest hbs]; rfl
@@ -551,7 +673,10 @@ theorem parseSeq_noMeta (m : Mode) : ∀ (fuel : Nat) (ob : Bool) (prev : Rune) 
         · subst hlb
           simp only [if_true] at hm ⊢
           cases hsb : scanBracket m.filenames rest with
-          | notBracket => exact fin true hm
+          | notBracket =>
+            have := fin true hm
+            rw [litTok_ne_dot m prev (by decide : cLB ≠ cDot)] at this
+            exact this
           | malformed e => right; exact ⟨e, rfl⟩
           | ok neg items rest' => exact absurd hsb (scanBracket_noMeta _ _ hm _ _ _)
         · simp only [hlb, if_false, hgrp, Bool.false_eq_true] at hm ⊢
